@@ -509,6 +509,9 @@ def spec_socks_request_roundtrip(ck, version, hostmax=HOSTMAX):
     tag = 'v%d' % version
     ex = ck.engine(loop_bound=8)
     ex.scan_bound = hostmax + 2
+    # a reader written over fill_buf / consume sees what the writer sent split at an arbitrary point (the tail that follows the
+    # message is part of "what is there"): the message must come out the same and the tail must stay
+    ex.fill_buf_mode = 'split-once'
     ex.type_bindings.update({'A': 'NoAuth', 'T': '()'})
     st = State()
     tgt, parts = sym_target(ex, st, 'target', maxlen=hostmax)
@@ -628,6 +631,7 @@ def spec_socks_response_roundtrip(ck, version, hostmax=HOSTMAX):
         return
     tag = 'v%d' % version
     ex = ck.engine(loop_bound=8)
+    ex.fill_buf_mode = 'split-once'
     st = State()
     tgt, parts = sym_target(ex, st, 'bind', maxlen=hostmax)
     cmd = Int(z3.BitVec('reply_code', 8), 8)
